@@ -170,7 +170,7 @@ def enc_case(case):
     """case = ('enc', M, L, value): the bit string = L-digit big-endian binary of value"""
     _, M, L, value = case
     bits = [(value >> (L - 1 - i)) & 1 for i in range(L)]
-    v = []
+    v = Viol()
     obs = enc_dec_one(bits, M, v)
     nt = (M, L, value) if L >= log2i(M) else False
     return res(viol=_dedup(v), obs=(M, L, obs), nontrivial=nt, stats={'enc_words': 1})
@@ -179,7 +179,7 @@ def enc_case(case):
 def encseq_case(case):
     """case = ('encseq', M, head symbols tuple, tail alphabet tuple): words = head + (t,) for every t"""
     _, M, head, tails = case
-    v = []
+    v = Viol()
     obs = []
     for t in tails:
         syms = tuple(head) + (t,)
@@ -199,10 +199,26 @@ def enclong_case(case):
     else:
         rs = np.random.RandomState(zlib.crc32(repr(('enclong', M, nbits, kind, seed)).encode()))
         bits = rs.randint(0, 2, nbits).tolist()
-    v = []
+    v = Viol()
     obs = enc_dec_one(bits, M, v, with_dtypes=False)
     return res(viol=_dedup(v), obs=(M, nbits, kind, zlib.crc32(repr(obs).encode())), nontrivial=(M, nbits, kind, seed),
                stats={'enc_words': 1})
+
+
+class Viol(list):
+    """violation collector: first message per key; `new(key)` lets the oracle skip formatting repeated keys"""
+
+    def __init__(self):
+        super().__init__()
+        self.keys = set()
+
+    def new(self, key):
+        return key not in self.keys
+
+    def append(self, item):
+        if item[0] not in self.keys:
+            self.keys.add(item[0])
+            super().append(item)
 
 
 def _dedup(v):
@@ -316,14 +332,17 @@ def hdd_outcome_oracle(M, syms, outcome, how, v):
         got = [p for p, b in enumerate(blk) if b]
         kind = sym_kind(on)
         if len(got) != 1:
-            v.append((f'HDD:not-one-ON:{kind}-symbol',
-                      f'M={M} symbols={syms} {how}: output symbol {i} has ON slots {got} (input ON slots {list(on)})'))
+            if v.new(f'HDD:not-one-ON:{kind}-symbol'):
+                v.append((f'HDD:not-one-ON:{kind}-symbol',
+                          f'M={M} symbols={syms} {how}: output symbol {i} has ON slots {got} (input ON slots {list(on)})'))
         elif kind == 'valid' and got[0] != on[0]:
-            v.append(('HDD:valid-symbol-changed',
-                      f'M={M} symbols={syms} {how}: symbol {i} had exactly one ON slot {on[0]}, output has {got[0]}'))
+            if v.new('HDD:valid-symbol-changed'):
+                v.append(('HDD:valid-symbol-changed',
+                          f'M={M} symbols={syms} {how}: symbol {i} had exactly one ON slot {on[0]}, output has {got[0]}'))
         elif kind == 'multi-ON' and got[0] not in on:
-            v.append(('HDD:kept-slot-was-not-ON',
-                      f'M={M} symbols={syms} {how}: symbol {i} had ON slots {list(on)}, output keeps slot {got[0]}'))
+            if v.new('HDD:kept-slot-was-not-ON'):
+                v.append(('HDD:kept-slot-was-not-ON',
+                          f'M={M} symbols={syms} {how}: symbol {i} had ON slots {list(on)}, output keeps slot {got[0]}'))
 
 
 def request_oracle(M, syms, dec, how, v):
@@ -345,6 +364,8 @@ def request_oracle(M, syms, dec, how, v):
                 break
         if not ok and has_empty and c <= set(range(len(syms) * M)):
             ok = True
+        if not ok and not v.new('HDD:choice-among-slots-that-were-not-ON'):
+            return
         if not ok:
             v.append(('HDD:choice-among-slots-that-were-not-ON',
                       f'M={M} symbols={syms} {how}: request #{i} np.random.choice({list(cands)[:40]}) offers slots that are '
@@ -400,7 +421,7 @@ def hdd_case(case):
     'real' -> real-RNG outcomes must be leaves of the explored tree"""
     _, M, syms, max_dev, extras = case
     syms = tuple(tuple(s) for s in syms)
-    v = []
+    v = Viol()
     outcomes, st = explore_hdd(M, syms, max_dev, v)
     bits = syms_to_pattern(syms, M).tolist()
     if 'forms' in extras:
@@ -434,7 +455,7 @@ def hdd_real_case(case):
     rs = np.random.RandomState(zlib.crc32(repr(('hddreal', M, nslots, dens, fseed)).encode()))
     x = rs.random_sample(nslots) < dens
     syms = tuple(tuple(np.flatnonzero(r).tolist()) for r in x.reshape(-1, M))
-    v = []
+    v = Viol()
     # run A: real generator, requests and answers recorded by transparent wrappers
     rec = []
     real_randint, real_choice = np.random.randint, np.random.choice
@@ -518,7 +539,7 @@ def sdd_dac_case(case):
     gv_reset(sps=sps, R=1e9)
     bits = syms_to_bits(syms, M)
     _, cw = ref_encode(bits, M)
-    v = []
+    v = Viol()
     x = DAC(np.array(cw, dtype=np.uint8), pulse_shape=shape)
     sig = np.asarray(x.signal)
     obs = []
@@ -592,7 +613,7 @@ def sdd_argmax_case(case):
     expected = [0] * (nsym * M)
     for i, w in enumerate(win):
         expected[i * M + int(w)] = 1
-    v = []
+    v = Viol()
     obs = []
     for name, obj in sdd_forms(x).items():
         y = SDD(obj, M)
@@ -611,7 +632,7 @@ def sdd_perm_case(case):
     x = np.kron(np.array(perm, dtype=float), np.ones(sps))
     expected = [0] * M
     expected[list(perm).index(M)] = 1
-    v = []
+    v = Viol()
     y = SDD(x, M)
     vals = check_sdd_output(y, expected, M, f'M={M} sps={sps} slot amplitudes={perm}', 'SDD:not-argmax:perm', v)
     gv_reset()
@@ -623,7 +644,7 @@ def ve_case(case):
     """case = ('ve', fn, clause, M, length, form, sps): the call must raise ValueError"""
     from opticomlib.ppm import HDD, SDD
     _, fn, clause, M, length, form, sps = case
-    v = []
+    v = Viol()
     if fn == 'HDD':
         bits = [(i * 7 + i // 3) % 2 for i in range(length)]
         obj = container_forms(bits)[form]
